@@ -279,11 +279,25 @@ def run(pid, tier, seed, replay=None):
                               dens=r.choice([dict(zero=0.0, one=0.0), dict(zero=0.3, one=0.15),
                                              dict(zero=0.6, one=0.1), dict(zero=0.15, one=0.4)]),
                               complex_=r.random() < 0.5))
+    if replay is None:
+        # stratum present in every run: Hermitian products of two factors in THREE parameters up to total order
+        # 3 (mirrored splits that differ only in a middle order, e.g. (0,1,0)/(0,0,1) of (0,1,1), (0,1,0)/(0,2,0)
+        # of (0,3,0)) -- only a comparison of the whole order tuples keeps exactly one term of each pair
+        for q, sp in enumerate(specs):
+            if sp["sid"] % 15 == 0:
+                sp.update(nfac=2, k=3, hermitian_flag=True, forceN=3 if (sp["sid"] // 15) % 2 else 2,
+                          dens=[dict(zero=0.0, one=0.0), dict(zero=0.15, one=0.15)][(sp["sid"] // 15) % 2])
     for sp in specs:
         r = common.rng_for(seed, pid, "build", sp["sid"])
         N = {1: 3, 2: 2, 3: 1}[sp["k"]] if quick else {1: 4, 2: 2, 3: 2}[sp["k"]]
         if sp["nfac"] == 4:
             N = min(N, 2)
+        if sp.get("forceN"):
+            N = sp["forceN"]
+        elif quick and sp["k"] == 3 and sp["hermitian_flag"] and sp["nfac"] <= 3:
+            # three parameters at total order 2: mirrored splits such as (0,1,0)/(0,0,1) of (0,1,1), which
+            # only a comparison of the WHOLE order tuples tells apart
+            N = 2
         s, m = build_session(r, sp["sid"], p, nfac=sp["nfac"], k=sp["k"], N=N, hermitian_flag=sp["hermitian_flag"],
                              dens=sp["dens"], complex_=sp["complex_"])
         sessions.append(s)
